@@ -46,11 +46,20 @@ theorem self_site_uses_own_holds : self_site_uses_own := by
     function; in particular none is left in `Terminal.setLemma`, the declension/conjugation code, elision,
     `getTonicPro`, or the constructors of `Phrase`/`Dependent`. -/
 def sites_ok_tbl : Prop :=
-  ∀ s ∈ langSites, isCurrentKind s.kind = true → exemptFunctions.contains s.func = true
+  (∀ s ∈ langSites, isCurrentKind s.kind = true → isExempt s.func = true) ∧
+    derivedOK callGraph exemptFunctions [] derivedExempt = true
 
 theorem sites_ok_tbl_holds : sites_ok_tbl := by
   unfold sites_ok_tbl
-  decide +kernel
+  refine ⟨?_, ?_⟩
+  · decide +kernel
+  · decide +kernel
+
+/-- the certificate check is not vacuous: a helper with a caller outside the exempt functions is rejected, one whose
+    only caller is exempt is accepted -/
+example : derivedOK [("A.f", "h"), ("B.g", "h")] ["A.f"] [] ["M.h"] = false := by decide +kernel
+example : derivedOK [("A.f", "h"), ("M.h", "h")] ["A.f"] [] ["M.h"] = true := by decide +kernel
+example : derivedOK [] ["A.f"] [] ["M.h"] = false := by decide +kernel
 
 /-- the functions on the realization path of G₀ named by the property's anchors have no current-language site -/
 def g0_functions : List String :=
